@@ -40,3 +40,74 @@ def jobs(tier):
                            ensures=[wf(), 'offset < 5 * QW ==> %s == (%s >> offset)' % (val(), val(old=True)), 'offset >= 4 * QW ==> %s == 0' % val()], assigns=frame()),
                       'right shift by any bit count: exact'))
     return out
+
+
+def more_jobs(w):
+    out = []
+    wt = WORDS[w][0]
+    wts = wt.replace(' ', '_')
+    wd = WIDE[w]
+    wds = wd.replace(' ', '_')
+    C, Q = cls(w), qcls(w)
+    S = self_obj(w)
+    V, OV = val(), val(old=True)
+    for T, Ts in ((wt, wts), (wd, wds)):
+        tq = T
+        out.append(mk(w, 'assign<%s>' % T, '%s::operator=<%s>' % (Q, tq), '%s_op_assign__%s__const_%s' % (C, Ts, Ts),
+                      dict(requires=[S, wf()], ensures=[wf(), '%s == (bv_t)number' % V], assigns=frame()),
+                      'assignment from an integer sets exactly that value'))
+        out.append(mk(w, 'or<%s>' % T, '%s::operator|=<%s>' % (Q, tq), '%s_op_or_assign__%s' % (C, Ts),
+                      dict(requires=[S, wf()], ensures=[wf(), '%s == (%s | (bv_t)number)' % (V, OV)], assigns=frame()),
+                      'or with an integer is exact and keeps the invariant'))
+        out.append(mk(w, 'and<%s>' % T, '%s::operator&=<%s>' % (Q, tq), '%s_op_and_assign__%s' % (C, Ts),
+                      dict(requires=[S, wf()], ensures=[wf(), '%s == (%s & (bv_t)number)' % (V, OV)], assigns=frame()),
+                      'and with an integer is exact and keeps the invariant'))
+        out.append(mk(w, 'add<%s>' % T, '%s::operator+=<%s>' % (Q, tq), '%s_op_add_assign__%s' % (C, Ts),
+                      dict(requires=[S, wf(), '%s + (bv_t)number < LIMIT' % V], ensures=[wf(), '%s == %s + (bv_t)number' % (V, OV)], assigns=frame()),
+                      'addition of an integer (any width) is exact'))
+        out.append(mk(w, 'sub<%s>' % T, '%s::operator-=<%s>' % (Q, tq), '%s_op_sub_assign__%s' % (C, Ts),
+                      dict(requires=[S, wf(), '%s >= (bv_t)number' % V], ensures=[wf(), '%s == %s - (bv_t)number' % (V, OV)], assigns=frame()),
+                      'subtraction of an integer (any width) is exact'))
+        out.append(mk(w, 'narrow<%s>' % T, '%s::operator %s<%s>' % (Q, tq, tq), '%s_conv_%s__%s' % (C, Ts, Ts),
+                      dict(requires=[S, wf()], ensures=['__CPROVER_return_value == (%s)%s' % (T, V)], assigns=[]),
+                      'narrowing conversion returns the low bits of the value'))
+    SS = '__CPROVER_is_fresh(src, sizeof(struct %s))' % C
+    out.append(mk(w, 'copy-assign', '%s::operator=(const %s &)' % (Q, Q), '%s_op_assign__const_%s_r' % (C, C),
+                  dict(requires=[S, SS, wf(), wf('src')], ensures=[wf(), '%s == %s' % (V, val('src')), '%s == %s' % (val('src'), val('src', old=True))], assigns=frame()),
+                  'copy assignment makes the target equal to the source and leaves the source alone'))
+    out.append(mk(w, 'move-assign', '%s::operator=(%s &&)' % (Q, Q), '%s_op_assign__%s_rr' % (C, C),
+                  dict(requires=[S, SS, wf(), wf('src')], ensures=[wf(), wf('src'), '%s == %s' % (V, val('src', old=True)), '%s == 0' % val('src')], assigns=frame() + frame('src')),
+                  'move assignment transfers the value and leaves a zero source'))
+    out.append(mk(w, 'copy-construct', '%s::BigInt(const %s &)' % (Q, Q), '%s_ctor__const_%s_r' % (C, C),
+                  dict(requires=[S, SS, wf('src')], ensures=[wf(), '%s == %s' % (V, val('src'))], assigns=frame()),
+                  'copy construction yields an equal value'))
+    out.append(mk(w, 'Clear', Q + '::Clear', C + '_Clear', dict(requires=[S, wf()], ensures=[wf(), '%s == 0' % V], assigns=frame()), 'Clear yields zero'))
+    out.append(mk(w, 'FindFirstBit', Q + '::FindFirstBit', C + '_FindFirstBit',
+                  dict(requires=[S, wf(), '%s != 0' % V], ensures=['__CPROVER_return_value < 4 * QW', '((%s >> __CPROVER_return_value) & 1) == 1' % V,
+                                                                 '(%s & ((((bv_t)1) << __CPROVER_return_value) - 1)) == 0' % V], assigns=[]),
+                  'index of the lowest set bit is exact'))
+    out.append(mk(w, 'FindLastBit', Q + '::FindLastBit', C + '_FindLastBit',
+                  dict(requires=[S, wf(), '%s != 0' % V], ensures=['__CPROVER_return_value < 4 * QW', '(%s >> __CPROVER_return_value) == 1' % V], assigns=[]),
+                  'index of the highest set bit is exact'))
+    B = '__CPROVER_is_fresh(out, sizeof(struct %s))' % C
+    for op, nm in (('<', 'lt'), ('<=', 'le'), ('>', 'gt'), ('>=', 'ge'), ('==', 'eq'), ('!=', 'ne')):
+        out.append(mk(w, 'cmp%s word' % op, 'Qentem::operator%s(const %s &, const %s)' % (op, Q, wt), 'op_%s__const_%s_r_const_%s' % (nm, C, wts),
+                      dict(requires=[B, wf('out')], ensures=['__CPROVER_return_value == (%s %s (bv_t)number)' % (val('out'), op)], assigns=[]),
+                      'comparison with a word agrees with the value'))
+        out.append(mk(w, 'word cmp%s' % op, 'Qentem::operator%s(const %s, const %s &)' % (op, wt, Q), 'op_%s__const_%s_const_%s_r' % (nm, wts, C),
+                      dict(requires=[B, wf('out')], ensures=['__CPROVER_return_value == ((bv_t)number %s %s)' % (op, val('out'))], assigns=[]),
+                      'comparison of a word with a BigInt agrees with the value'))
+    out.append(mk(w, 'IsZero', Q + '::IsZero', C + '_IsZero', dict(requires=[S, wf()], ensures=['__CPROVER_return_value == (%s == 0)' % V], assigns=[]), 'zero predicate agrees with the value'))
+    out.append(mk(w, 'NotZero', Q + '::NotZero', C + '_NotZero', dict(requires=[S, wf()], ensures=['__CPROVER_return_value == (%s != 0)' % V], assigns=[]), 'non-zero predicate agrees with the value'))
+    return out
+
+
+_jobs1 = jobs
+
+
+def jobs(tier):
+    out = _jobs1(tier)
+    widths = [8, 64] if tier == 'quick' else [8, 16, 32, 64]
+    for w in widths:
+        out += more_jobs(w)
+    return out
